@@ -61,6 +61,21 @@ func unitsFor(prop, tier string) []Unit {
 			us = append(us, Unit{Prop: prop, Tier: tier, Kind: "x1", Index: i, Name: "x1/" + sc.Name})
 		}
 	}
+	if prop == "C14" {
+		for i, c := range httpxCombos() {
+			us = append(us, Unit{Prop: prop, Tier: tier, Kind: "httpx", Index: i, Name: fmt.Sprintf("httpx/profiling=%v/%s", c.profiling, c.history)})
+		}
+	}
+	if prop == "C17" {
+		for i := 0; i < 8; i++ {
+			us = append(us, Unit{Prop: prop, Tier: tier, Kind: "defx", Index: i, Name: fmt.Sprintf("defx/validation-grid-%d-of-8", i)})
+		}
+		us = append(us, Unit{Prop: prop, Tier: tier, Kind: "defx", Index: 8, Name: "defx/file-sets"})
+		us = append(us, Unit{Prop: prop, Tier: tier, Kind: "defx", Index: 9, Name: "defx/equals"})
+	}
+	if prop == "C10" {
+		us = append(us, Unit{Prop: prop, Tier: tier, Kind: "codec", Index: 0, Name: "codec/json-values"})
+	}
 	if prop == "C09" {
 		for i, c := range crashCases(tier) {
 			us = append(us, Unit{Prop: prop, Tier: tier, Kind: "crashfs", Index: i, Name: "crashfs/" + c.Name})
@@ -127,6 +142,12 @@ func runUnit(u Unit) UnitResult {
 		return runX2Unit(u, x2Configs(u.Prop, u.Tier)[u.Index])
 	case "crashfs":
 		return runCrashUnit(u)
+	case "httpx":
+		return runHTTPXUnit(u)
+	case "defx":
+		return runDefxUnit(u)
+	case "codec":
+		return runCodecUnit(u)
 	}
 	panic("unknown unit kind " + u.Kind)
 }
